@@ -139,7 +139,8 @@ Definition profile_caps (p : profile) (extra : list bytes) : list bytes :=
 
 (* ---------------------------------------------------------------- the exchange as a transition system *)
 (* Messages are identified by numbers: 0 is the client <hello>, n >= 1 the requests sent after connect. *)
-Inductive herr := ETimeout | ESessionClose | EParse | EChoose.
+Inductive herr := ETimeout | ESessionClose | EParse | EChoose
+  | EOther.   (* an exception of the transport's read (OSError ...) handed to err_cb as it is; only Model/NegotiateSched.v uses it *)
 Inductive mainst := MWaiting | MReturned (r : option herr).      (* None = _post_connect returned normally *)
 Inductive hello_in :=
 | HTree (t : node)        (* a message whose root is <hello> (qualified or not): HelloHandler.callback parses it *)
